@@ -36,12 +36,15 @@
 (*   op <<"corr",f,"-">>  CorrFunc.sample()                                *)
 (*        = norm program for every member in the order dd, dr, rd, rr,     *)
 (*        Estimate    estimator(values), estimator(samples) [kwargs]      *)
-(*                    (Landy-Szalay if rr exists, else Davis-Peebles)      *)
+(*                    (Landy-Szalay if rr exists, else Davis-Peebles; rr   *)
+(*                    without dr: no formula prescribed = undefined)       *)
 (*   op <<"nz","-","-">>  RedshiftData.from_corrfuncs(cross, ref, unk)     *)
 (*        = corr programs of "cross", "ref", "unk" (those that exist),     *)
 (*        Redshift    from_corrdata: w_sp / sqrt(dz^2 w_ss w_pp), with     *)
 (*                    dz2_samples = tile(dz2, N).reshape((N, -1))          *)
 (*   op <<"io",f,"-">>    CorrFunc.to_file(); CorrFunc.from_file()         *)
+(*        WriteRead   the object read back replaces the object (explored   *)
+(*                    only where something is sampled afterwards)          *)
 (*   op <<"hist","-","-">> HistData.from_catalog(catalog, config, W)       *)
 (*        HistStart   counts = np.empty(...); pool of W workers            *)
 (*        HDispatch / HComplete   iter_unordered: the result of patch t    *)
@@ -50,6 +53,9 @@
 (*        HistResample  resample_jackknife: tile / delete / reshape / sum  *)
 (*   every result additionally carries SampledData.covariance              *)
 (*   (cov_from_samples) where the samples are integral.                    *)
+(* Level selects which operations are combined into histories of MaxOps    *)
+(* operations on the SAME objects (OpsOf); every terminal state is printed *)
+(* (PrintBeh) and replayed on the real library by checks/c03.py.           *)
 (*                                                                         *)
 (* The property compares every result with the statistic RECOMPUTED FROM   *)
 (* SCRATCH from the original data restricted to the kept patches           *)
@@ -162,7 +168,9 @@ SumF(f, S) == IF S = {} THEN 0
 
 (* CorrFunc.sample: Landy-Szalay if rr exists (rd defaults to dr), else Davis-Peebles *)
 Estimator(M, v) ==
-    IF "rr" \in M
+    IF "rr" \in M /\ "dr" \notin M
+    THEN Undef    \* no formula prescribed for rr without dr (the code rejects it): any outcome conforms
+    ELSE IF "rr" \in M
     THEN LET rd == IF "rd" \in M THEN v["rd"] ELSE v["dr"]
          IN RDiv(RAdd(RSub(v["dd"], v["dr"]), RSub(v["rr"], rd)), v["rr"])
     ELSE LET mixed == IF "rd" \in M THEN v["rd"] ELSE v["dr"]
